@@ -307,6 +307,7 @@ func (p *c15) RunCase(ctx *runner.Ctx) runner.CaseResult {
 	case ctx.Case < nseq*2+2:
 		p.batchCompositions(x, adapt.Adapters[ctx.Case-nseq*2], ctx)
 		p.malformedWhileFailing(x, adapt.Adapters[ctx.Case-nseq*2])
+		p.failureBetweenPages(x, adapt.Adapters[ctx.Case-nseq*2])
 	default:
 		idx := ctx.Case - nseq*2 - 2
 		r := mon.Rng(ctx.Seed, "C15", idx)
@@ -344,4 +345,59 @@ func (p *c15) RunCase(ctx *runner.Ctx) runner.CaseResult {
 		}
 	}
 	return x.r
+}
+
+// failureBetweenPages: "while a failure is active every data operation fails" - a page of a paginated read IS a data
+// operation. The SDK's own pagers (v2: NewQueryPaginator / NewScanPaginator; v1: QueryPages / ScanPages where the
+// fake implements them) walk a result of several pages; the failure is switched on after the k-th page was delivered
+// and before the next one is asked for (the database goes down in the middle of a long read): no further page is
+// delivered, the walk ends with the configured error - and once the failure is switched off the same walk completes.
+func (p *c15) failureBetweenPages(x *res, adapter string) {
+	spec := ixSpec("tbl15p", true)
+	for _, kind := range []string{adapt.OpScan, adapt.OpQuery} {
+		for _, fl := range []struct{ name, want string }{{"internal_server", adapt.ClsInternal}, {"deprecated", adapt.ClsForced}} {
+			for _, after := range []int{1, 2} {
+				for _, index := range []string{"", "gsi1"} {
+					cl, _, ds := freshClient(adapter, spec)
+					if ds != nil {
+						return
+					}
+					for i := 0; i < 6; i++ {
+						cl.Do(adapt.Op{Kind: adapt.OpPut, Table: spec.Name, Item: ixItem("p", fmt.Sprint(i), "x", "9", i)})
+					}
+					op := adapt.Op{Kind: kind, Table: spec.Name, Index: index, Limit: 2, Paginate: true, MaxPages: 10}
+					if kind == adapt.OpQuery {
+						op.KeyCnd, op.Values = "h = :h", val.Item{":h": val.Str("p")}
+						if index != "" {
+							op.KeyCnd, op.Values = "g = :g", val.Item{":g": val.Str("x")}
+						}
+					}
+					whole := cl.Do(op)
+					if whole.Class == adapt.ClsNotImpl {
+						x.r.Counters["pager_not_implemented"]++
+						continue
+					}
+					x.r.Evals += 3
+					x.fp(true, "%s|failure-between-pages|%s|%s|%d|%s", adapter, kind, fl.name, after, index)
+					x.r.Counters["walks_with_a_failure_between_pages"]++
+					if whole.Class != adapt.ClsOK || len(whole.Items) != 6 || whole.Count < 3 {
+						x.viol("pager-walk", kind, fmt.Sprintf("[%s] the SDK pager over 6 items with Limit 2 on a healthy client: class %s (%s), %d pages, %d items", adapter, whole.Class, whole.Msg, whole.Count, len(whole.Items)), map[string]interface{}{"adapter": adapter, "request": op, "outcome": whole})
+						continue
+					}
+					fop := op
+					fop.FailAfterPage, fop.Fail = after, fl.name
+					got := cl.Do(fop)
+					wit := map[string]interface{}{"adapter": adapter, "request": fop, "outcome": got}
+					if got.Class != fl.want || int(got.Count) != after {
+						x.viol("page-delivered-while-failing", kind+"/"+fl.name, fmt.Sprintf("[%s] %s through the SDK pager, %s switched on after page %d: the walk ended with class %s (%s) after delivering %d pages; want %d pages and the configured error (%s)", adapter, kind, fl.name, after, got.Class, got.Msg, got.Count, after, fl.want), wit)
+						continue
+					}
+					cl.Do(adapt.Op{Kind: adapt.OpEmulate, Fail: "none"})
+					if again := cl.Do(op); again.Class != adapt.ClsOK || adapt.ItemsCanon(again.Items) != adapt.ItemsCanon(whole.Items) {
+						x.viol("not-restored", kind+"/pager", fmt.Sprintf("[%s] after the failure was switched off the same walk gives class %s, %d items; before it gave %d", adapter, again.Class, len(again.Items), len(whole.Items)), wit)
+					}
+				}
+			}
+		}
+	}
 }
